@@ -3,7 +3,7 @@ from pyvc.verify import Post, Case, Equiv, NativeFacts
 from contracts import common, C02
 
 PROPERTY = 'C01'
-REF_MODULES = ['ref_t', 'h_path', 'ref_auto', 'ref_extra', 'ref_core', 'ref_registry']
+REF_MODULES = ['ref_t', 'h_path', 'ref_auto', 'ref_extra', 'ref_core', 'ref_registry', 'ref_match', 'ref_reduce']
 config = C02.config
 
 
@@ -40,6 +40,9 @@ def contracts():
     from contracts import C13
     cs += common.shared(C13, ['core.TargetRegistry.get_handler', 'core.TargetRegistry.get_type_map', 'core.TargetRegistry._get_closest_type',
                               'core.TargetRegistry.register', 'core.TargetRegistry.__init__', 'core.TargetRegistry._register_default_types'])
+    # every path segment is argument-evaluated (arg_val): a non-spec segment such as a tuple or namedtuple key is passed through as it is
+    from contracts import C08
+    cs += common.shared(C08, ['core.arg_val', 'core._ArgValuator.mode'])
     return cs
 
 
@@ -70,7 +73,8 @@ def bounded_registered_access(tier, seed):
                 bound=r.get('bound', '') + '; failures under the open C13 finding keys %s are reported by C13, not here' % sorted(c13_keys))
 
 
-BOUNDED = [bounded_registered_access]
+from contracts import extra as _extra
+BOUNDED = [bounded_registered_access, _extra.bounded_from_text]
 ASSUMPTIONS = C02.ASSUMPTIONS + [
     'the get handler chosen for a value is TargetRegistry.get_handler(\'get\', value): get_handler / register / _get_closest_type are under contract here too (shared with C13); tree construction is bounded (C13 stand-in run here); the default table is read natively from the initialised registry',
     'copy.copy of the PathAccessError in glom() preserves class, exc, path and part_idx (C04)',
